@@ -173,6 +173,9 @@ func (e *Engine) computeLeaves(t types.Type, path string) []leafInfo {
 			return []leafInfo{{Sort: "Int", Kind: kRef, Path: path}}
 		case u.Kind() == types.UntypedNil:
 			return []leafInfo{{Sort: "Int", Kind: kRef, Path: path}}
+		case u.Kind() == types.Invalid:
+			// the unused key of `for _, v := range m`
+			return []leafInfo{{Sort: "Int", Kind: kRef, Path: path}}
 		}
 		e.needSort("GoOther")
 		return []leafInfo{{Sort: "GoOther", Kind: kUninterp, Path: path}}
